@@ -168,7 +168,8 @@ def table() -> dict[str, Prop]:
              "literal (TABLES); the placeholder is turned back into text in every list the inline parser fills, image descriptions "
              "included, by an eliminator no return of which bypasses its loop and which calls itself on the children of every "
              "element (LIFE); text accumulators are never overwritten inside their loop, and table rows are cut at pipes only by the "
-             "escape-aware splitter (ACCUM); numeric character references are recognised in either case by both decoders (TABLES)",
+             "escape-aware splitter (ACCUM); numeric character references are recognised in either case by both decoders (TABLES); the "
+             "alt attribute of an image is recomputed from the image's own children, never taken from raw source (RWRITE)",
              [PL.rule_tables, TK.rule_life, PL.rule_accum],
              not_decided="literalness in each of the seven inline contexts for every text t (behaviour of the inline rules on runtime "
                          "strings), in particular the escape handling inside link titles / destinations"))
